@@ -244,7 +244,14 @@ class PosClassifier:
                     if not (isinstance(t, ast.Tuple) and [src(x) for x in t.elts] ==
                             [el.id for el in p.elts]):
                         continue
-                    text = src(it)
+                    arrs_ = list(getattr(self, 'array_names', ())) + \
+                        [n_ for n_, ds in self.w.defs.items() for d_ in ds
+                         if d_[0] == 'value' and isinstance(d_[1], ast.Call)
+                         and src(d_[1].func) == 'visibility_function']
+                    text = src(self.w.expand(it, stop=[a_ for a_ in arrs_ if a_]))
+                    for wrap_ in ('np.asarray(', 'np.array(', 'np.asanyarray('):
+                        text = text.replace(wrap_, '(')
+                    text = text.replace(', dtype=bool)', ')').replace('.astype(bool)', '')
                     for fn_ in ('np.argwhere(', 'np.nonzero(', 'np.where('):
                         if fn_ in text:
                             inner = text[text.index(fn_) + len(fn_):]
